@@ -25,8 +25,8 @@ void harness(void){
 #elif HP_METHOD==2
   ManhattanDistance_ST(a,b,s);
 #else
-  for(size_t i=0;i<HP_N;i++){ double q=0; for(size_t j=0;j<HP_C;j++) q+=a->data[i][j]*a->data[i][j]; ASSUME(q>=1e-3); }
-  for(size_t i=0;i<HP_N2;i++){ double q=0; for(size_t j=0;j<HP_C;j++) q+=b->data[i][j]*b->data[i][j]; ASSUME(q>=1e-3); }
+  for(size_t i=0;i<HP_N;i++){ double q=0; for(size_t j=0;j<HP_C;j++) q+=a->data[i][j]*a->data[i][j]; ASSUME(q>=1e-12); }
+  for(size_t i=0;i<HP_N2;i++){ double q=0; for(size_t j=0;j<HP_C;j++) q+=b->data[i][j]*b->data[i][j]; ASSUME(q>=1e-12); }
   CosineDistance_ST(a,b,s);
 #endif
   CHECK(d->row==HP_N2 && d->col==HP_N && s->row==HP_N2 && s->col==HP_N, "distance matrix is rows(m2) x rows(m1)");
@@ -40,7 +40,7 @@ void harness(void){
 #elif HP_METHOD==2
   ManhattanDistanceCondensed(a,cd,HP_T); ManhattanDistance_ST(a,a,s);
 #else
-  for(size_t i=0;i<HP_N;i++){ double q=0; for(size_t j=0;j<HP_C;j++) q+=a->data[i][j]*a->data[i][j]; ASSUME(q>=1e-3); }
+  for(size_t i=0;i<HP_N;i++){ double q=0; for(size_t j=0;j<HP_C;j++) q+=a->data[i][j]*a->data[i][j]; ASSUME(q>=1e-12); }
   CosineDistanceCondensed(a,cd,HP_T); CosineDistance_ST(a,a,s);
 #endif
   CHECK(cd->size==(HP_N*(HP_N-1))/2, "condensed form has n(n-1)/2 entries");
